@@ -33,12 +33,14 @@ ASSUMPTIONS = [
 N_RUNS = {"quick": 1500, "thorough": 40000}
 
 NEW_KINDS = ["str", "str_sp", "str_comma", "str_mixed", "list", "tuple", "arr_bool", "arr_int", "arr_float",
-             "arr_u8", "list_bool", "list_float", "scalar_int", "scalar_bool", "scalar_float", "np_scalar"]
+             "arr_u8", "list_bool", "list_float", "scalar_int", "scalar_bool", "scalar_float", "np_scalar", "arr0d",
+             "np_bool", "arr0d_bool", "tuple_npbool"]
 CAT_KINDS_R = ["obj", "obj", "str", "str_sp", "str_comma", "list", "tuple", "arr_int", "arr_bool", "arr_float",
                "arr_u8", "list_bool"]
 CAT_KINDS_L = ["str", "str_sp", "list", "tuple", "list_bool", "str_comma"]
 BAD_NEW = ["two", "neg", "half", "str2", "stra", "2d", "none", "complex", "nan", "3d", "str2d", "strempty",
-           "mixed_bad", "big", "strneg", "strfloat"]
+           "mixed_bad", "big", "strneg", "strfloat", "row2d", "col2d", "nest3d", "tuple_of_list", "ones_1x4", "arr_1x1",
+           "frac_trunc", "wrap256", "neg_half"]
 BAD_CAT = ["two", "neg", "half", "2d", "str2", "stra", "scalar_obj", "dict", "none"]
 
 
@@ -78,7 +80,7 @@ def generate(seed, tier):
         k = rng.choice(kinds)
         if k == "new":
             kind = rng.choice(NEW_KINDS)
-            n = 1 if kind.startswith("scalar") or kind == "np_scalar" else _len(rng)
+            n = 1 if kind.startswith("scalar") or kind in ("np_scalar", "arr0d", "np_bool", "arr0d_bool") else _len(rng)
             if kind.startswith("str") and n == 0:
                 n = 1
             if rng.random() < 0.03:
@@ -130,7 +132,8 @@ def simplify_op(op):
         b = op["bits"]
         yield dict(op, bits=b[: len(b) // 2])
         yield dict(op, bits=b[:2])
-    if op.get("op") == "new" and op.get("kind") not in ("list", None) and "bits" in op and len(op["bits"]) != 1:
+    if op.get("op") == "new" and op.get("kind") not in ("list", None, "arr0d", "np_bool", "arr0d_bool") and "bits" in op \
+            and len(op["bits"]) != 1:
         yield dict(op, kind="list")
     if op.get("op") == "concat" and op.get("kind") not in ("list", "obj"):
         yield dict(op, kind="list")
@@ -179,6 +182,14 @@ def _container(kind, bits):
         return float(bits[0]), None
     if kind == "np_scalar":
         return np.uint8(bits[0]), None
+    if kind == "arr0d":
+        return np.array(int(bits[0])), None
+    if kind == "arr0d_bool":
+        return np.squeeze(np.array([bool(bits[0])])), None
+    if kind == "np_bool":
+        return np.bool_(bits[0]), None
+    if kind == "tuple_npbool":
+        return tuple(np.bool_(b) for b in bits), None
     raise ValueError(kind)
 
 
@@ -188,7 +199,9 @@ def _bad_value(what):
         "2d": [[0, 1], [1, 0]], "none": None, "complex": [1j, 0], "nan": [float("nan"), 1.0],
         "3d": np.zeros((2, 2, 2), dtype=int), "str2d": "01;10", "strempty": "", "mixed_bad": [0, 1, "x"],
         "big": np.array([0, 255], dtype=np.uint8), "strneg": "0 -1 1", "strfloat": "0.5 1",
-        "scalar_obj": 1, "dict": {"a": 1},
+        "scalar_obj": 1, "dict": {"a": 1}, "row2d": [[0, 1]], "col2d": [[1], [0], [1]], "nest3d": [[[1]]],
+        "tuple_of_list": ([1, 0, 1],), "ones_1x4": np.ones((1, 4)), "arr_1x1": np.zeros((1, 1), dtype=int),
+        "frac_trunc": [0, 1.9, 1], "wrap256": [0, 256, 1], "neg_half": [-0.5, 1],
     }[what]
 
 
@@ -284,7 +297,7 @@ class Machine:
         else:
             bits = np.random.RandomState(op["bseed"]).randint(0, 2, op["n"]).tolist()
         kind = op["kind"]
-        if kind.startswith("scalar") or kind == "np_scalar":
+        if kind.startswith("scalar") or kind in ("np_scalar", "arr0d", "np_bool", "arr0d_bool"):
             bits = bits[:1] or [0]
         if kind.startswith("str") and not bits:
             bits = [0]
